@@ -741,7 +741,38 @@ def case_inplace_chain(case, col=None):
             raise Violation(f"inplace_then_{tag}_differs_from_plain:{op}", f"{case}: after the in-place form, {tag} with {other!r} -> {_short(r1)}; on the plain result -> {_short(r2)}")
 
 
+DELTA_PAIRS = [("delta_degree_Fahrenheit", "kelvin"), ("delta_degree_Celsius", "degree_Rankine"), ("delta_degree_Celsius", "millikelvin"), ("delta_degree_Fahrenheit", "delta_degree_Celsius"),
+               ("kelvin", "delta_degree_Fahrenheit"), ("degree_Rankine", "delta_degree_Celsius"), ("delta_degree_Celsius", "degree_Celsius"), ("degree_Fahrenheit", "delta_degree_Celsius"), ("meter", "inch")]
+
+
+def case_plain_twice(case, col=None):
+    """a plain (not in-place) + or - on array quantities leaves both operands what they were - evaluating the same expression again gives the same
+    result - also when one operand is a delta quantity and the other determines the unit of the result"""
+    import numpy as np
+
+    ureg = env.ureg("float")
+    ua, ub, op = case["ua"], case["ub"], case["op"]
+    if col is not None:
+        col.case(("pt", ua, ub, op, case["dtype"]), ua != ub, sample=case, cls="plain_twice")
+    dt = float if case["dtype"] == "float" else np.int64
+    a, b = ureg.Quantity(np.array([10, 20, 30], dtype=dt), ua), ureg.Quantity(np.array([1, 2, 4], dtype=dt), ub)
+    ka, kb = (a.magnitude.copy(), dict(a._units)), (b.magnitude.copy(), dict(b._units))
+    fn = operator.add if op == "add" else operator.sub
+    r1 = _run(lambda: fn(a, b))
+    same_ops = np.array_equal(a.magnitude, ka[0]) and dict(a._units) == ka[1] and np.array_equal(b.magnitude, kb[0]) and dict(b._units) == kb[1]
+    if not same_ops:
+        raise Violation(f"operand_modified:plain_{op}:array", f"Q([10 20 30],{ua}) {op} Q([1 2 4],{ub}) ({case['dtype']}): the operands are now {a!r} and {b!r}")
+    r2 = _run(lambda: fn(a, b))
+    if r1[0] != r2[0] or (r1[0] == "ok" and not (np.allclose(np.asarray(r1[1].magnitude, dtype=float), np.asarray(r2[1].magnitude, dtype=float), rtol=1e-12, atol=0) and dict(r1[1]._units) == dict(r2[1]._units))):
+        raise Violation(f"same_expression_twice_differs:{op}", f"Q([10 20 30],{ua}) {op} Q([1 2 4],{ub}): first {_short(r1)}, then {_short(r2)}")
+
+
 def run_forms(task, tier, seed, col):
+    if task["shard"] == 1:
+        for ua, ub in DELTA_PAIRS:
+            for op in ("add", "sub"):
+                for dtp in ("float", "int"):
+                    col.run_case(lambda c: case_plain_twice(c, col), {"ua": ua, "ub": ub, "op": op, "dtype": dtp})
     if task["shard"] == 0:
         for unit, alt in (("second", "millisecond"), ("meter", "inch")):
             for e1 in (-3, -2, -1, 1, 2, 3):
@@ -826,7 +857,37 @@ def _number_ordering(case, a, n, da, R):
             raise Violation(f"number_ordered_against_dimensional_quantity:{tag}", f"Q({case['x']},{case['ua']}) {tag} with n={n!r} returned {r[1]!r}")
 
 
+NONMULT = ["degree_Celsius", "degree_Fahrenheit", "delta_degree_Celsius", "kelvin", "decibel", "decibelmilliwatt", "neper"]
+
+
+def case_errors_nonmult(case, col=None):
+    """the dimension rule comes first: an operand in an offset or logarithmic unit next to an operand of another dimension is a dimension mismatch
+    (DimensionalityError) like the same temperature or level expressed in a plain unit - whatever the order, also for arrays and in-place forms"""
+    import numpy as np
+
+    ureg = env.ureg("float")
+    ua, ub, op, swap, arr = case["ua"], case["ub"], case["op"], case["swap"], case["array"]
+    mk = (lambda v: np.array([v, v + 1.0])) if arr else (lambda v: v)
+    a, b = ureg.Quantity(mk(20.0), ua), ureg.Quantity(mk(3.0), ub)
+    if swap:
+        a, b = b, a
+    if col is not None:
+        col.case(("en", ua, ub, op, swap, arr), True, sample=case, cls="nonmult_diff_dim")
+    f = {"add": operator.add, "sub": operator.sub, "lt": operator.lt, "ge": operator.ge, "iadd": operator.iadd, "isub": operator.isub}[op]
+    r = _run(lambda: f(a, b))
+    if r[0] == "ok":
+        raise Violation(f"accepted_dimension_mismatch:{op}:nonmultiplicative", f"Q(20,{dict(a._units)}) {op} Q(3,{dict(b._units)}) returned {_short(r)}")
+    if r[1] != "DimensionalityError":
+        raise Violation(f"wrong_exception_for_dimension_mismatch:{r[1]}:nonmultiplicative", f"{dict(a._units)} {op} {dict(b._units)} ({'array' if arr else 'scalar'}): {r[2]!r}; the dimensions differ")
+
+
 def run_errors(task, tier, seed, col):
+    for ua in NONMULT:
+        for ub in ("meter", "second"):
+            for op in ("add", "sub", "lt", "ge", "iadd", "isub"):
+                for swap in (False, True):
+                    for arr in (False, True):
+                        col.run_case(lambda c: case_errors_nonmult(c, col), {"ua": ua, "ub": ub, "op": op, "swap": swap, "array": arr})
     hyp_search(col, _errors_strategy(), lambda c: case_errors(c, col), max_examples=800 if tier == "quick" else 12000, seed=seed * 101)
 
 
@@ -884,4 +945,8 @@ def replay(sub, case):
         return case_offsetcmp(case)
     if sub == "forms" and "e1" in case:
         return case_inplace_chain(case)
+    if sub == "forms" and "dtype" in case:
+        return case_plain_twice(case)
+    if sub == "errors" and "swap" in case:
+        return case_errors_nonmult(case)
     return {"exact": case_exact, "float": case_float, "forms": case_forms, "errors": case_errors}[sub](case)
